@@ -24,7 +24,10 @@ C09_MC = T([dict(cfg="MC_Token.cfg", timeout=900), dict(cfg="MC_TokenId.cfg", ti
            [dict(cfg="MC_Token_big.cfg", timeout=3000), dict(cfg="MC_TokenId.cfg", timeout=900)])
 C09_GEN = T([dict(cfg="GEN_Token.cfg", num=20, depth=16, seeds=6, driver_cfg=C09_GEN_CFG)],
             [dict(cfg="GEN_Token.cfg", num=60, depth=20, seeds=14, driver_cfg=C09_GEN_CFG)])
-C09_SCN = [dict(file="scenarios/token_F5.ndjson", cfg=C09_GEN_CFG)]
+# token_cover_*: scripted coverage suites — every antecedent in `required` is exercised
+# by them on the unchanged tree, so vacuity never depends on the seed
+C09_SCN = [dict(file="scenarios/token_F5.ndjson", cfg=C09_GEN_CFG),
+           dict(file="scenarios/token_cover_c09.ndjson", cfg=C09_GEN_CFG)]
 
 C10_MC = T([dict(cfg="MC_TokenMath.cfg", timeout=900, workers=4), dict(cfg="MC_TokenErc.cfg", timeout=900)],
            [dict(cfg="MC_TokenMath.cfg", timeout=900, workers=4), dict(cfg="MC_TokenErc_big.cfg", timeout=3000)])
@@ -34,7 +37,10 @@ C10_GEN = T([dict(cfg="GEN_TokenErc.cfg", num=20, depth=16, seeds=6, driver_cfg=
              dict(cfg="GEN_TokenMath_big.cfg", mode="bfs", depth=401, seeds=1, driver_cfg="")])
 C10_SCN = [dict(file="scenarios/token_F6.ndjson", cfg="users=3,stake=40," + BASE + REG),
            dict(file="scenarios/token_F6_panic.ndjson",
-                cfg="users=3,stake=40," + BASE + ",regin=maa,regout=mbb,regrn=2,regrd=1")]
+                cfg="users=3,stake=40," + BASE + ",regin=maa,regout=mbb,regrn=2,regrd=1"),
+           dict(file="scenarios/token_cover_c10.ndjson", cfg=C10_GEN_CFG),
+           dict(file="scenarios/token_cover_swap.ndjson",
+                cfg="users=3,stake=40," + BASE + ",regin=maa,regout=mbb,regrn=1,regrd=2")]
 
 ASSUME = ["TLC 1.8, SANY, CommunityModules Json", "Go toolchain, cosmos-sdk x/bank, x/auth",
           "harness projection functions", "harness EVM ledger (harness/evmledger) standing in for an EVM module",
